@@ -35,7 +35,7 @@ func init() {
 				if p, err := md.MarshalMTData2Packet(id); err == nil {
 					enc = len(p.Data())
 				}
-				try := func(n int) bool {
+				try := func(n int, want bool) bool {
 					if n < 0 {
 						return false
 					}
@@ -43,9 +43,16 @@ func init() {
 					p := append([]byte{byte(v >> 8), byte(v), byte(n)}, make([]byte, n)...)
 					ok := false
 					protect(func() { ok = fresh.UnmarshalMTData2Packet(xsens.MTData2Packet(exact(p))) == nil })
+					// the same packet as a view into a longer buffer (what the client hands to the decoders)
+					fresh2 := reflect.New(reflect.TypeOf(md).Elem()).Interface().(xsens.MeasurementData)
+					ok2 := false
+					protect(func() { ok2 = fresh2.UnmarshalMTData2Packet(xsens.MTData2Packet(roomy(p, 24))) == nil })
+					if ok != ok2 {
+						return !want // acceptance depends on what lies behind the packet: report the unwanted answer
+					}
 					return ok
 				}
-				acc, acc1 = try(ds), try(ds-1)
+				acc, acc1 = try(ds, true), try(ds-1, false)
 			})
 			c.emit("size", tup(zs(int64(v)), zs(int64(ds)), zs(int64(enc)), cbool(acc), cbool(acc1), cbool(scan), cbool(disp)))
 			if disp {
